@@ -289,7 +289,7 @@ func (pk *PrivateKey) parsePrivateKey(data []byte) (err error) {
 	case PubKeyAlgoECDSA:
 		return pk.parseECDSAPrivateKey(data)
 	}
-	panic("impossible")
+	return errors.UnsupportedError("private key of type " + strconv.Itoa(int(pk.PublicKey.PubKeyAlgo)))
 }
 
 func (pk *PrivateKey) parseRSAPrivateKey(data []byte) (err error) {
